@@ -30,3 +30,36 @@ def KF_C04_scalar_view_selections(div):
     if b['exp']['rshape'] != [] or b['cfg']['kind'] != 'tuple':
         return False
     return div.component in ('mask[catroi]', 'mask[roi3d]', 'mask[catmultirange]', 'mask[catroi2d]', 'mask[category]')
+
+
+def _memo_ops(div):
+    b = div.behaviour
+    if b.get('spec') != 'Memo':
+        return None
+    return [s['act'] for s in b['steps'][:div.step + 1]]
+
+
+def KF_C05_inplace_edit_after_evaluation(div):
+    """A selection (or a leaf inside a composite selection) is edited in place - move_to, ROI edits, attribute
+    setters - after the selection was evaluated: the memoised mask (keyed by object identity) is returned again."""
+    ops = _memo_ops(div)
+    if ops is None or div.kind != 'stale':
+        return False
+    seen_eval = False
+    for a in ops[:-1]:
+        if a['op'] == 'Evaluate':
+            seen_eval = True
+        elif a['op'] == 'MutateLeaf' and seen_eval:
+            return True
+    return False
+
+
+def KF_C05_floodfill_after_value_change(div):
+    """FloodFillSubsetState keeps the mask computed at construction when the dataset's values are replaced."""
+    ops = _memo_ops(div)
+    if ops is None or div.kind != 'stale':
+        return False
+    kinds = div.behaviour['kinds']
+    tree = ops[0]['a']
+    used = [kinds['A']] + ([kinds['B']] if 'B' in tree else [])
+    return 'flood' in used and any(a['op'] in ('UpdateComponents', 'UpdateFromData') for a in ops[:-1])
